@@ -131,6 +131,8 @@ class Plan:
         self.probes = {}
         self.refused = False  # request refused before execution (operation / variables)
         self.over = {}
+        self.item_sites = {}  # item position -> (list object, index)
+        self.default_sites = {}  # default-resolved field position -> (parent object, FieldDef)
 
     def probe(self, n):
         self.probes[n] = self.probes.get(n, 0) + 1
@@ -287,6 +289,7 @@ class RefExec:
                 except ArgError as ae:
                     raise FieldFail(path, "argument:" + ae.arg)
                 raw = self.default_value(obj_type, obj, fd, path)
+                p.default_sites[path] = (obj, fd)
             p.positions.append((path, fd.type, "field", fd.impl == "resolver"))
             return self.complete(fd.type, raw, path, fields, obj_type, fd)
         except FieldFail as ff:
@@ -542,6 +545,7 @@ class RefExec:
             for i, item in enumerate(raw):
                 ip = path + (i,)
                 self.plan.positions.append((ip, item_t, "item", False))
+                self.plan.item_sites[ip] = (raw, i)
                 try:
                     out.append(self.complete_item(item_t, item, ip, fields, obj_type, fd))
                 except Propagate as pr:
